@@ -3,6 +3,7 @@ package main
 import (
 	"crypto/rsa"
 	"strings"
+	"time"
 
 	"crypto/x509"
 	"encoding/base64"
@@ -194,6 +195,51 @@ func genC01(tier string, rng *RNG, w *CaseWriter) {
 				continue
 			}
 			emitEnvelopeOut(w, e.mt, b2, []string{"history:verify,sign-with-lying-signer,verify"}, 0, "%s", func() (out implEnvOut) {
+				out.Verify, out.Content = "None", "None"
+				defer func() {
+					if r := recover(); r != nil {
+						out.Panicked, out.PanicMsg = true, fmt.Sprint(r)
+					}
+				}()
+				out.ParseOK = true
+				if c, err := env.Verify(); err == nil && c != nil {
+					t, _ := contentTerm(c)
+					out.Verify = "(Some " + t + ")"
+				} else {
+					out.VerifyErr = errClass(err)
+				}
+				if c, err := env.Content(); err == nil && c != nil {
+					t, _ := contentTerm(c)
+					out.Content = "(Some " + t + ")"
+				} else {
+					out.ContErr = errClass(err)
+				}
+				return
+			})
+		}
+		// (ii-d) the same with an honest signer and another payload: what the object returns afterwards is the decoding
+		// of the bytes its second Sign returned, not of what it held before
+		for _, e := range envs[:3] {
+			e := e
+			env, err := signature.ParseEnvelope(e.mt, e.bytes)
+			if err != nil {
+				continue
+			}
+			env.Verify()
+			env.Content()
+			ls, lerr := signature.NewLocalSigner(e.chain, e.plan.SignWith)
+			if lerr != nil {
+				continue
+			}
+			req := &signature.SignRequest{Payload: signature.Payload{ContentType: "application/vnd.example.second+json", Content: []byte(`{"second":"signing"}`)}, Signer: ls,
+				SigningTime: baseTime.Add(time.Hour), SigningScheme: signature.SigningSchemeX509SigningAuthority,
+				ExtendedSignedAttributes: []signature.Attribute{{Key: "vendor.second", Critical: true, Value: "yes"}}}
+			b2, serr := env.Sign(req)
+			if serr != nil || len(b2) == 0 {
+				w.Count("history-scenario-skipped")
+				continue
+			}
+			emitEnvelopeOut(w, e.mt, b2, []string{"history:verify,content,sign-again,verify"}, 2, "%s", func() (out implEnvOut) {
 				out.Verify, out.Content = "None", "None"
 				defer func() {
 					if r := recover(); r != nil {
